@@ -133,7 +133,7 @@ class OpsMixin(object):
             t = {"+": A.t + B.t, "-": A.t - B.t, "*": A.t * B.t}[op]
             return SV(t)
         if op == "/":
-            if self.E.decide(B == 0):
+            if self.E.implicit_raise(B == 0, "ZeroDivisionError"):
                 self.raise_("ZeroDivisionError", "division by zero")
             return SV(to_real(A).t / to_real(B).t, "real")
         if op in ("//", "%"):
